@@ -33,7 +33,7 @@ class Heap:
     def __init__(self):
         self.nbuf = 0
         self.nobj = 0
-        self.arrays = {}  # obj id -> {"buf": id, "off": int, "len": int}
+        self.arrays = {}  # obj id -> {"buf": id, "idx": tuple of element positions in the buffer, "len": int}
         self.vectors = {}  # obj id -> [array obj ids]
         self.groups = {}  # obj id -> {key: obj id}
         self.datasets = {}  # obj id -> {key: group obj id}
@@ -47,10 +47,15 @@ class Heap:
         self.nobj += 1
         return f"{prefix}{self.nobj}"
 
-    def new_array(self, n, buf=None, off=0):
+    def new_array(self, n, buf=None, idx=None):
         oid = self.new_id("a")
-        self.arrays[oid] = {"buf": buf if buf is not None else self.new_buf(), "off": off, "len": n}
+        idx = tuple(range(n)) if idx is None else tuple(idx)
+        self.arrays[oid] = {"buf": buf if buf is not None else self.new_buf(), "idx": idx, "len": len(idx)}
         return oid
+
+    def view(self, oid, sl):
+        a = self.arrays[oid]
+        return self.new_array(0, buf=a["buf"], idx=a["idx"][sl])
 
     def copy_array(self, oid):
         return self.new_array(self.arrays[oid]["len"])
@@ -90,6 +95,13 @@ def make_q(kind):
         return 2.0, np.float64(2.0), M2.dims_of(), 0.0
     p, d, t = _arr.phys(a)
     return a, p, d, t
+
+
+def _view_kind(a, b):
+    def contiguous(x):
+        return all(j - i == 1 for i, j in zip(x["idx"], x["idx"][1:]))
+
+    return "contiguous-views" if contiguous(a) and contiguous(b) else "strided-or-reversed-view"
 
 
 def _snap(w):
@@ -311,16 +323,43 @@ class Spec:
                 if is_vec:
                     # v op= q rebinds the name to a new Vector whose components wrap the same data
                     nid = hp.new_id("v")
-                    hp.vectors[nid] = [hp.new_array(hp.arrays[c]["len"], buf=hp.arrays[c]["buf"], off=hp.arrays[c]["off"]) for c in comp_ids]
+                    hp.vectors[nid] = [hp.new_array(0, buf=hp.arrays[c]["buf"], idx=hp.arrays[c]["idx"]) for c in comp_ids]
                     if tgt in hp.slots:
                         hp.slots[tgt] = nid
                         st.slots[tgt] = res
                     if not isinstance(res, osyris.Vector):
                         problems.append(("C17:inplace-vector-result-type", {"type": type(res).__name__}))
+        elif name == "sortby":
+            g, gid = slot_obj(op[1])
+            members = hp.groups[gid]
+            lens = {hp.arrays[m]["len"] if m in hp.arrays else hp.arrays[hp.vectors[m][0]]["len"] for m in members.values()}
+            if not members or len(lens) != 1:
+                return ["disabled"], problems
+            n = lens.pop()
+            perm = list(np.roll(np.arange(n), 1)[::-1]) if n > 1 else [0]
+            old_vals = {k: [np.asarray(c._array).copy() for c in (g[k]._xyz.values() if hasattr(g[k], "_xyz") else [g[k]])] for k in members}
+            old_units = {k: [str(c.unit) for c in (g[k]._xyz.values() if hasattr(g[k], "_xyz") else [g[k]])] for k in members}
+            try:
+                g.sortby([int(i) for i in perm])
+            except Exception as e:
+                problems.append(("C17:sortby-raised:" + type(e).__name__, {"op": op}))
+                return ["raised"], problems
+            for k in list(members):
+                comps = list(g[k]._xyz.values()) if hasattr(g[k], "_xyz") else [g[k]]
+                for c, ov, ou in zip(comps, old_vals[k], old_units[k]):
+                    if not np.array_equal(np.asarray(c._array), ov[perm]) or str(c.unit) != ou:
+                        problems.append(("C17:sortby-wrong-member-values", {"key": k}))
+                # sorting a group re-creates its members: objects shared with other containers are left alone
+                m = members[k]
+                members[k] = hp.copy_array(m) if m in hp.arrays else hp.copy_vector(m)
+            ret = "sorted"
         elif name == "derive":
             how, src = op[1], op[2]
             obj, oid = slot_obj(src)
             if obj is None:
+                return ["disabled"], problems
+            SL = {"slice": slice(1, None), "slice_step": slice(None, None, 2), "slice_rev": slice(None, None, -1)}
+            if how in SL and oid in hp.datasets:
                 return ["disabled"], problems
             try:
                 if how == "copy":
@@ -329,23 +368,32 @@ class Spec:
                     new = copy.copy(obj)
                 elif how == "deepcopy":
                     new = copy.deepcopy(obj)
-                elif how == "slice":
-                    new = obj[1:]
+                elif how in SL:
+                    new = obj[SL[how]]
                 else:
                     raise KeyError(how)
             except Exception as e:
                 problems.append((f"C17:{how}-raised:{type(e).__name__}", {"op": op}))
                 return ["raised"], problems
             deep = how == "deepcopy" or oid in hp.arrays or oid in hp.vectors
-            if how == "slice":
+            if how in SL:
                 if oid in hp.arrays:
-                    a = hp.arrays[oid]
-                    nid = hp.new_array(a["len"] - 1, buf=a["buf"], off=a["off"] + 1)
+                    nid = hp.view(oid, SL[how])
                 elif oid in hp.vectors:
                     nid = hp.new_id("v")
-                    hp.vectors[nid] = [hp.new_array(hp.arrays[c]["len"] - 1, buf=hp.arrays[c]["buf"], off=hp.arrays[c]["off"] + 1) for c in hp.vectors[oid]]
+                    hp.vectors[nid] = [hp.view(c, SL[how]) for c in hp.vectors[oid]]
                 else:
-                    return ["disabled"], problems
+                    # slicing a Datagroup gives a new group whose members are views of the original members
+                    nid = hp.new_id("g")
+                    newm = {}
+                    for k, m in hp.groups[oid].items():
+                        if m in hp.arrays:
+                            newm[k] = hp.view(m, SL[how])
+                        else:
+                            vid = hp.new_id("v")
+                            hp.vectors[vid] = [hp.view(c, SL[how]) for c in hp.vectors[m]]
+                            newm[k] = vid
+                    hp.groups[nid] = newm
             elif oid in hp.arrays:
                 nid = hp.copy_array(oid)
             elif oid in hp.vectors:
@@ -391,7 +439,7 @@ class Spec:
             for j in range(i + 1, len(items)):
                 (o1, w1), (o2, w2) = items[i], items[j]
                 a1, a2 = hp.arrays[o1], hp.arrays[o2]
-                model_share = a1["buf"] == a2["buf"] and max(a1["off"], a2["off"]) < min(a1["off"] + a1["len"], a2["off"] + a2["len"])
+                model_share = a1["buf"] == a2["buf"] and bool(set(a1["idx"]) & set(a2["idx"]))
                 live_share = bool(np.shares_memory(w1._array, w2._array))
                 if model_share != live_share:
                     kind = "unexpected-sharing" if live_share else "expected-view-is-a-copy"
@@ -413,15 +461,15 @@ class Spec:
                 tw = [x for x in after if id(x[1]) in target_paths and hp.arrays[x[2]]["buf"] == a["buf"]]
                 if tw:
                     t_w, t_a = tw[0][1], hp.arrays[tw[0][2]]
-                    lo = max(a["off"], t_a["off"])
-                    hi = min(a["off"] + a["len"], t_a["off"] + t_a["len"])
-                    if lo < hi:
-                        mine = np.asarray(w._array)[lo - a["off"]: hi - a["off"]]
-                        theirs = np.asarray(t_w._array)[lo - t_a["off"]: hi - t_a["off"]]
+                    pos_t = {e: k for k, e in enumerate(t_a["idx"])}
+                    mine_pos = [k for k, e in enumerate(a["idx"]) if e in pos_t]
+                    if mine_pos:
+                        mine = np.asarray(w._array)[mine_pos]
+                        theirs = np.asarray(t_w._array)[[pos_t[a["idx"][k]] for k in mine_pos]]
                         if not np.array_equal(mine, theirs):
-                            problems.append(("C17:update-not-visible-through-alias", {"path": path, "after": op}))
+                            problems.append((f"C17:update-not-visible-through-alias:{_view_kind(a, t_a)}", {"path": path, "after": op}))
                         keep = np.ones(a["len"], dtype=bool)
-                        keep[lo - a["off"]: hi - a["off"]] = False
+                        keep[mine_pos] = False
                         if not np.array_equal(np.asarray(w._array)[keep], raw_before[keep]):
                             problems.append(("C17:update-leaked-outside-view", {"path": path, "after": op}))
                 continue
@@ -445,8 +493,10 @@ def ops_for(thorough):
             ops.append(["inplace", tgt, o, q])
     for how, src in [("copy", "A0"), ("copy.copy", "A0"), ("deepcopy", "A0"), ("slice", "A0"), ("copy", "V0"), ("deepcopy", "V0"),
                      ("slice", "V0"), ("copy", "G0"), ("deepcopy", "G0"), ("copy", "DS"), ("deepcopy", "DS"), ("copy.copy", "V0"),
-                     ("copy.copy", "G0")]:
+                     ("copy.copy", "G0"), ("slice_step", "A0"), ("slice_rev", "A0"), ("slice_step", "V0"), ("slice_step", "X"), ("slice", "X")]:
         ops.append(["derive", how, src])
+    ops.append(["sortby", "G0"])
+    ops.append(["sortby", "G1"])
     return ops
 
 
